@@ -168,6 +168,8 @@ def max_index(fn, idx):
 
 
 def run(ctx):
+    # locals / parameters the rules below refer to by name (a rename makes the analysis 'broken', never a violation)
+    ctx.anchor(ctx.fn1('Oomd::Fs::readDirFromDIR'), 'de', 'flags')
     P, cg = ctx.prog, ctx.cg
     E = Escape(P, cg)
     main, roots = main_loop_roots(ctx)
